@@ -148,7 +148,12 @@ func (e *Engine) bindByName(st *State, fr *Frame, inv *ssa.Function) []Val {
 		default:
 			v, ok := e.lookupName(st, fr, n)
 			if !ok {
-				fail("invariant %s: no local named %s in %s", inv.Name(), n, fr.fn.Name())
+				if strings.HasPrefix(inv.Name(), "vc_hook_") {
+					// a hook may name locals that exist on some paths only: zero value elsewhere
+					v = zeroVal(p.Type())
+				} else {
+					fail("invariant %s: no local named %s in %s", inv.Name(), n, fr.fn.Name())
+				}
 			}
 			args = append(args, v)
 		}
@@ -288,7 +293,13 @@ func (e *Engine) enterLoopHeader(st *State, fr *Frame, h *ssa.BasicBlock, ord in
 	for id, ob := range st.objs {
 		if m, ok := ob.(*MapObj); ok {
 			ks := sortOf(&Term{W: m.KeyW})
-			st.objs[id] = &MapObj{Dom: SymSort(fresh("mapdom"), "(Array "+ks+" Bool)"), Vals: map[string]*Term{}, KeyW: m.KeyW, ValT: m.ValT, Own: m.Own}
+			nm := &MapObj{Dom: SymSort(fresh("mapdom"), "(Array "+ks+" Bool)"), Vals: map[string]*Term{}, KeyW: m.KeyW, ValT: m.ValT, Own: m.Own}
+			if _, isPtr := m.ValT.Underlying().(*types.Pointer); isPtr {
+				// the value array exists from now on (a lazily created one would differ between the invariant's
+				// evaluation and the code's later reads)
+				nm.Vals["p"] = SymSort(fresh("mapval"), "(Array "+ks+" Ref)")
+			}
+			st.objs[id] = nm
 		}
 	}
 	if bufW {
@@ -432,6 +443,41 @@ func (e *Engine) vspecCall(st *State, fr *Frame, name string, args []Val) ([]Out
 			allQFacts = append(allQFacts, &QFact{QF: qf, Key: rd.key, Shift: shift, BV: bv, Body: guarded})
 		}
 		return one(qf)
+	case "ForallKeys":
+		// ForallKeys(m, p): p(k) for every key k (of the key type's full range; p itself says "if present")
+		mv, ok := args[0].(MapV)
+		if iv, isI := args[0].(IfaceV); isI {
+			mv, ok = iv.V.(MapV)
+		}
+		fv, ok2 := args[1].(FuncV)
+		if !ok || !ok2 {
+			fail("ForallKeys: need a map and a function literal")
+		}
+		skolem := st.goal && !st.assume && st.root != nil
+		bv := BoundVar(fresh("k"), 64)
+		if skolem {
+			bv = Sym(fresh("sk"), 64)
+		}
+		s2 := st.clone()
+		s2.spec = true
+		s2.goal = false
+		s2.trace = &readTrace{bases: map[string]*Term{}}
+		n0 := len(s2.pc)
+		saved := e.paths
+		outs := e.execFunc(s2, fv.Fn, []Val{bv}, fv.Bind, 1)
+		e.paths = saved
+		body := tFalse
+		for _, o := range outs {
+			body = Or(body, And(append(append([]*Term{}, o.st.pc[n0:]...), asTerm(o.ret[0]))...))
+		}
+		if skolem {
+			e.instantiateAtReads(st, s2.trace.reads)
+			return one(body)
+		}
+		all := Forall(bv, body)
+		qf := &Term{Leaf: fresh("qf"), W: 0, QDef: all}
+		allQFacts = append(allQFacts, &QFact{QF: qf, Key: fmt.Sprintf("map|%d", mv.ID), Shift: BVu(0, 64), BV: bv, Body: body})
+		return one(qf)
 	case "BufIs":
 		b, id := e.bufOf(st, args[0])
 		want := txt(args[1])
@@ -476,6 +522,25 @@ func (e *Engine) vspecCall(st *State, fr *Frame, name string, args []Val) ([]Out
 			fail("vspec.Owned of %T", v)
 		}
 		return one(Or(Eq(ref, BVu(0, 64)), And(ULt(alloc0, ref), ULe(ref, st.watermark()))))
+	case "SameSlice":
+		// the same slice value (same memory, same window), whatever the element type
+		un := func(v Val) Val {
+			if iv, ok := v.(IfaceV); ok {
+				return iv.V
+			}
+			return v
+		}
+		a, ok1 := un(args[0]).(SliceV)
+		b, ok2 := un(args[1]).(SliceV)
+		if !ok1 || !ok2 {
+			fail("vspec.SameSlice of %T, %T", args[0], args[1])
+		}
+		return one(And(Eq(a.Base, b.Base), Eq(a.Off, b.Off), Eq(a.Len, b.Len)))
+	case "PrivateError":
+		// the error value is a sentinel created by errors.New in its own package's initialisation: no other package
+		// (a transport, a driver) can ever return it
+		ev, ok := args[0].(ErrV)
+		return one(Bool(ok && strings.HasPrefix(ev.ID.Leaf, "private!")))
 	case "Watermark":
 		// all memory allocated by the call so far has a reference at most this value
 		return one(st.watermark())
@@ -560,4 +625,24 @@ func (e *Engine) eqBytes(st *State, a, b SliceV) *Term {
 		return Eq(a.Len, b.Len)
 	}
 	return And(Eq(a.Len, b.Len), contentEq(arrA, a.Off, arrB, b.Off, a.Len))
+}
+
+
+// instantiateAtReads: the body of a skolemised quantified goal read memory at these places; the active quantified
+// hypotheses about the same memory are instantiated there (into the real state the goal is evaluated from).
+func (e *Engine) instantiateAtReads(st *State, reads []traceRead) {
+	done := map[string]bool{}
+	for _, rd := range reads {
+		for _, f := range allQFacts {
+			if f.Key != rd.key || !st.root.qfActive[f.QF.Leaf] {
+				continue
+			}
+			inst := Implies(f.QF, subst(f.Body, f.BV.Leaf, Sub(rd.abs, f.Shift)))
+			if k := inst.String(); !done[k] {
+				done[k] = true
+				auxTerms.Store(inst, true)
+				st.root.pc = append(st.root.pc, inst)
+			}
+		}
+	}
 }
